@@ -36,6 +36,7 @@ STATS_PATH = re.compile(r"^modules\.\d+\.(loaded_symbols|missing_symbols|corrupt
 class C13(PropBase):
     pid = "C13"
     coq_dirs = ["Base", "C08", "C03", "C12", "C13"]
+    translators = []
     bins = ["c13"]
     impl_timeout = 900
     impl_mem_gb = 4
